@@ -482,6 +482,31 @@ def _get_or_create(s1, s2):
     return new
 
 
+def _dict_get(s):
+    """if K in D: v = D[K]  else: v = F      ->   v = D.get(K, F)        (also with `not in` and swapped branches)"""
+    if not (isinstance(s, ast.If) and len(s.body) == 1 and len(s.orelse) == 1):
+        return None
+    t = s.test
+    if not (isinstance(t, ast.Compare) and len(t.ops) == 1 and isinstance(t.ops[0], ast.In | ast.NotIn)):
+        return None
+    K, D = t.left, t.comparators[0]
+    hit, miss = (s.body[0], s.orelse[0]) if isinstance(t.ops[0], ast.In) else (s.orelse[0], s.body[0])
+    if not all(isinstance(x, ast.Assign) and len(x.targets) == 1 and isinstance(x.targets[0], ast.Name) for x in (hit, miss)):
+        return None
+    if hit.targets[0].id != miss.targets[0].id:
+        return None
+    hv = hit.value
+    if not (isinstance(hv, ast.Subscript) and _same(hv.value, D) and _same(hv.slice, K)):
+        return None
+    if not isinstance(K, ast.Name | ast.Attribute | ast.Subscript | ast.Constant):
+        return None
+    call = ast.Call(func=ast.Attribute(value=D, attr="get", ctx=ast.Load()), args=[K, miss.value], keywords=[])
+    new = ast.Assign(targets=[ast.Name(id=hit.targets[0].id, ctx=ast.Store())], value=call)
+    for x in (new, call, call.func, new.targets[0]):
+        ast.copy_location(x, s)
+    return new
+
+
 def _cond_value(fn, s1, s2):
     """v = A if c else B ; <simple statement using v exactly once, v used nowhere else>
          ->  if c: <statement with A> else: <statement with B>"""
@@ -564,8 +589,13 @@ def normalise_idioms(tree) -> int:
     for node in ast.walk(tree):
         for fld in ("body", "orelse", "finalbody"):
             blk = getattr(node, fld, None)
-            if not isinstance(blk, list) or len(blk) < 2 or not all(isinstance(x, ast.stmt) for x in blk):
+            if not isinstance(blk, list) or not all(isinstance(x, ast.stmt) for x in blk):
                 continue
+            for k, st in enumerate(blk):
+                new = _dict_get(st)
+                if new is not None:
+                    blk[k] = new
+                    n += 1
             i = 0
             while i + 1 < len(blk):
                 new = _get_or_create(blk[i], blk[i + 1])
